@@ -1010,10 +1010,23 @@ func (ck *Check) autoDiscovery(rule string) {
 			// the store has to land in the per-group state / a local copy, never in Opts.NodeGroups
 			_, how := storeRoot(st.Addr)
 			target := how
+			// rooted in the configured list: along the base chain of the stored-to location (map keys
+			// and indices do not count) there is the NodeGroups field of the controller options
+			intoConfigured := strings.Contains(how, "NodeGroups")
 			if fa, ok := st.Addr.(*ssa.FieldAddr); ok {
-				target += " " + ctx.Term(fa.X).String()
+				bt := ctx.Term(fa.X)
+				target += " " + bt.String()
+				for t := bt; t != nil; {
+					if t.Kind == "field" && t.Name == "NodeGroups" {
+						intoConfigured = true
+					}
+					if len(t.Args) == 0 {
+						break
+					}
+					t = t.Args[0]
+				}
 			}
-			ck.cond(!strings.Contains(target, "NodeGroups"), rule, key+"/target", ck.P.instrPos(st), funcID(fn), "discovered bounds are written to the group's own state (or a local copy), not into the configured options that decide on auto-discovery", target,
+			ck.cond(!intoConfigured, rule, key+"/target", ck.P.instrPos(st), funcID(fn), "discovered bounds are written to the group's own state (or a local copy), not into the configured options that decide on auto-discovery", target,
 				"the configured min_nodes/max_nodes are overwritten, so later scans no longer see (0,0) and stop following the cloud group's bounds")
 			v := ctx.Term(st.Val)
 			wantM := "MinSize"
@@ -1383,4 +1396,50 @@ func (ck *Check) onlyTheMaximumClamps(rule string) {
 		ck.cond(okv, rule, key, ck.P.instrPos(s.Call), funcID(fn), "PC ⇒ d ≥ Δ ∨ TargetSize + d ≥ cloud MaxSize ∨ TargetSize + d ≥ max_nodes", pc.String(), "fewer nodes are requested than needed although the maximum is not reached: "+why)
 	}
 	ck.floor(rule, "IncreaseSize call sites in the cloud step", n, 1)
+}
+
+// everyCandidateAttempted (C07.R8 / C06.R10): inside the taint / untaint loop the write is attempted
+// for every element the loop reaches: the only conditions on the way to the write that speak about
+// the current element are the dry-mode switch and — for the untaint — "the node carries the
+// escalator taint" by the classifier's own predicate (GetToBeRemovedTaint). Any other
+// element-dependent condition (a readable time stamp, an annotation, a label) silently skips
+// nodes the classifier counted: fewer nodes than decided are tainted, or capacity is bought
+// although tainted nodes were available.
+func (ck *Check) everyCandidateAttempted(rule string, fn *ssa.Function, cls string) {
+	ea := ck.effActionSite(cls, fn)
+	if ea == nil {
+		ck.lost(rule, cls+" site", "no such action site in "+funcID(fn))
+		return
+	}
+	call := ea.Call
+	key := ck.P.siteKey(ea.Inner) + "/every-candidate"
+	l := innermostLoop(fn, call.Block())
+	if l == nil || l.IdxPhi == nil || l.Over == nil {
+		ck.fail(rule, key, ck.P.instrPos(call), funcID(fn), "the write sits in a range loop over the candidates", "no such loop", "")
+		return
+	}
+	ctx := ck.P.NewCtx(fn)
+	over := ctx.Term(l.Over)
+	lid := "L" + ctx.instrID(l.IdxPhi)
+	aboutElem := func(t *Term) bool {
+		return t.contains(func(x *Term) bool {
+			return x.Kind == "elem" && x.ID == lid && len(x.Args) == 1 && x.Args[0].Key() == over.Key()
+		})
+	}
+	var extra []string
+	for _, at := range ctx.PC(call).Atoms() {
+		if !aboutElem(at) {
+			continue
+		}
+		if at.Kind == "cmp" && at.Name == "<" && strings.Contains(at.String(), "rangeindex") {
+			continue
+		}
+		// the classifier's own "carries the escalator taint"
+		if cls == "A-UNTAINT" && at.Kind == "extract" && at.Name == "1" && len(at.Args) == 1 && isCallTo(at.Args[0], ck.A.GetTaint) {
+			continue
+		}
+		extra = append(extra, at.String())
+	}
+	ck.cond(len(extra) == 0, rule, key, ck.P.instrPos(call), funcID(fn), "no condition on the current element other than dry mode (and, for the untaint, the classifier's own taint test) stands between the loop and the write", strings.Join(extra, "; "),
+		"candidates the classifier counted are skipped without a write: the loop runs out before n writes succeeded")
 }
